@@ -159,3 +159,16 @@ Example unrepaired_unused_variable :
   map snd (report_vcl p_unused_variable) = map bs ["macro"; "r1"]%string.
 Proof. vm_compute. split; reflexivity. Qed.
 
+(* an ignore range left open at the end of the file: the unused/declaration diagnostic of the subroutine written
+   BEFORE the start comment was swallowed too *)
+Definition p_open_range : list decl :=
+  [DSub mt [bs "scope"] [bs "unused/declaration"] (SBlock mt [st mt "r0"]);
+   DSub (lead "# falco-ignore-start") [bs "macro"] [] (SBlock mt [st mt "r1"])].
+Example unrepaired_open_range :
+  map snd (report_vcl_unrepaired p_open_range) = map bs ["scope"; "r0"]%string /\
+  map snd (report_vcl p_open_range) = map bs ["scope"; "r0"; "unused/declaration"]%string.
+Proof. vm_compute. split; reflexivity. Qed.
+
+(* every rule name declared in linter/rules.go (regenerated) can be written in a rule list *)
+Lemma declared_rules_plain : forallb plain_rule Gen.LintGen.rule_names = true.
+Proof. vm_compute. reflexivity. Qed.
